@@ -2,7 +2,7 @@
    FULL STATEMENT decided by the differential check (histories with reopen cycles, ingestion, clear, sealed journals;
    dump before close = dump after reopen; point reads = scans).  Proved parts are named ..._partial: they are the two
    halves of the replay rule that the repairs 3ed2a5b (active journal) and dc3abc4 (sealed journals) put in place. *)
-From FJ Require Import Bytes Codec Reader Lsm Tracker Db Prog RecoverP FilterP.
+From FJ Require Import Bytes Codec Reader Lsm Tracker Db Prog RecoverP FilterP OrderP DbOrderP RefineP RecoverInvP.
 
 (* a journal batch (items and clears) that every keyspace's tables already cover is not replayed: table data that never
    went through the journal (bulk ingestion, compaction-filter output) is neither shadowed nor wiped *)
@@ -31,6 +31,32 @@ Theorem C04_reopen_identity_refuted :
   nth 5 out (Ox ObOk) = Ox (ObOpt None) /\ nth 8 out (Ox ObOk) = Ox (ObOpt (Some [170%N])).
 Proof. exact ingested_tombstone_resurrects. Qed.
 
+(* recovery re-establishes the invariant of the write path, for ANY disk image whose trees hold tables only (what a close
+   leaves) and whose journal batches carry increasing seqnos, oldest journal first: every recovered keyspace has its sources
+   ordered by recency (a journal record is put back only when it is newer than everything the tables hold; sealed journals
+   rebuild memtables that are dropped or sealed) and every entry below the restored counter *)
+Theorem C04_recovery_restores_the_write_invariant : forall cfg mode filters active sealed meta dirs pn ms,
+  d_replay_shadow cfg = false -> d_seqno_journal cfg = false ->
+  (forall p, In p dirs -> QQ 0 (snd p)) -> incr 0 (concat sealed ++ active) ->
+  DInv (recover cfg mode filters active sealed meta dirs pn ms).
+Proof. exact recover_dinv. Qed.
+
+(* hence, after EVERY program of writes, maintenance and reopens, point reads agree with scans on every keyspace — the
+   clause of the property that the replay defects (3ed2a5b, dc3abc4) broke *)
+Theorem C04_reads_agree_after_reopen : forall mode filters (ops : list rop) ks k I,
+  let d := fold_left rstep ops (db_init mode filters) in
+  In ks (d_kss d) ->
+  v_get_ent (k_tree ks) (latest (k_tree ks)) k I = newest k I (v_all (k_tree ks) (latest (k_tree ks))).
+Proof. exact reads_agree_with_reopen. Qed.
+
+(* the journal a reopen finds is the journal the close left, and both invariants survive any number of reopen cycles *)
+Theorem C04_reopen_cycles_keep_invariants : forall (ops : list rop) d,
+  DInv d -> JS d -> DInv (fold_left rstep ops d) /\ JS (fold_left rstep ops d).
+Proof. exact rrun_inv. Qed.
+
+Print Assumptions C04_recovery_restores_the_write_invariant.
+Print Assumptions C04_reads_agree_after_reopen.
+Print Assumptions C04_reopen_cycles_keep_invariants.
 Print Assumptions C04_covered_records_not_replayed_partial.
 Print Assumptions C04_uncovered_records_replayed_partial.
 Print Assumptions C04_covered_example.
